@@ -22,7 +22,7 @@ CHECKS = {
             "Histories over few UIDs and many names (UID moves, deletes, restarts, cache evictions); UIDs are extracted from served bytes by an independent parser; real conflicts must be refused without effect, non-conflicts must never be refused as no-uid-conflict. POSTs carry media-type parameters and members created by POST count as calendar objects under whatever name the server chose; half of the runs use the Store API with 2-3 handles, UID hand-over patterns and one failing read inside a write.",
             "deterministic simulation: UID holder model from served bytes"),
     "C07": ("E-HIST", "exploration", "4/C07",
-            "Every audited state issues a token; sync-collection is run with arbitrary earlier tokens, the empty token and never-issued tokens (random, malformed, blob/commit ids, other collections' tokens); the multistatus must equal the exact diff of the two observed snapshots and return the current token.",
+            "Every audited state issues a token; sync-collection is run with arbitrary earlier tokens, the empty token and never-issued tokens (random, malformed, blob/commit ids, other collections' tokens); the multistatus must equal the exact diff of the two observed snapshots and return the current token. Twins of one content under adjacent names; 30 % of the runs sweep a read error over every file-system event of a sync report (the report may fail, a 207 must still be the exact diff); one third of the runs overlap the report with a write (E-CONC).",
             "deterministic simulation: snapshot-diff oracle over all (token i, report j) pairs"),
     "C08": ("E-HIST", "exploration", "4/C08",
             "ctag (both namespaces), sync-token and collection getetag observed at every audit; tag -> member state must be a function, reads/refused/failed/foreign writes must not move the tag, and (members, .xandikos bytes) -> tag must be a function for git collections. The read-only audit is bracketed by two sync-token-only PROPFINDs so that a read which writes cannot hide inside it.",
